@@ -452,7 +452,7 @@ pub fn run(args: &Args) -> Report {
         cases.push(Case { try_unbounded: false, max_k: u32::MAX, label: format!("B: cycles {s:?}"), exec: Box::new(move |r| exec_b(&s2, r)) });
     }
     let plan = Plan {
-        ks: if thorough { vec![0, 1, 2, 3] } else { vec![0, 1, 2] },
+        ks: if thorough { vec![0, 1, 2, 3, 4, 5] } else { vec![0, 1, 2] },
         env: 0,
         fault: 0,
         total_wall: Duration::from_secs(if thorough { 1500 } else { 25 }),
